@@ -318,4 +318,6 @@ def run(chk, tier):
     n_tz = len(re.findall(r"offset\.to_string\(\)\.replace\(':', ''\)", td)) + len([x for x in H.walk(hd_["body"]) if H.kind(x) == "mcall" and x[3] == "replace"])
     chk.expect(n_tz >= 2, "date-time-width", "DicomDateTime::to_encoded", "offset-text", "the UTC offset is printed as +HH:MM with the colon removed (5 characters)", n_tz, loc=C.fn_loc(hd_))
 
+    from . import shared
+    shared.writer_text_identity(chk, fx, "writer-text-identity")
     chk.undecided.append("validation of real output bytes by an independent parser; DataSetWriter delimiter placement is covered under C02")
